@@ -96,6 +96,11 @@ CHECKS.update({
    note="Rule-name tables are generated at build time from grammar.rs and grammar.pest; differing rule sets are reported.",
    design_ref="§3 C14"),
 })
+CHECKS["C17"] = dict(level="model_checking", engine="loom-debugger",
+   technique="loom (DPOR with iterated preemption bound) over the real debugger source rebound to loom primitives; every explored schedule is a run of the real code checked against the sequential listener trace",
+   text="The real debugger/src/lib.rs is recompiled with its std::sync / std::thread imports bound to loom-backed shims (build.rs, no repository hook) and five controller scripts (run-to-end, breakpoint edits while stopped, re-run after the first event, immediate re-run with the precondition enforced exactly, re-run after the end) are explored for five grammar/input/breakpoint scenarios and channel capacities 1 and 2, at preemption bounds 0..4 (quick) and 0..6 plus unbounded with a time cap (thorough). In every schedule the delivered events must equal the sequential listener trace filtered by the breakpoint set followed by Eof or the plain VM error text, nothing may arrive between a breakpoint and its cont, and every run() must return with all threads able to terminate (loom reports deadlocks).",
+   note="Spurious park wake-ups and orderings weaker than loom's C11 model are not explored; the bounded channel is the harness' loom model of sync_channel.",
+   design_ref="§3 C17")
 PENDING = {}
 
 checks = []
@@ -130,6 +135,7 @@ m = {
    {"name": "parser-state-mc", "path": "/verif/harness/c03", "serves_properties": ["C03"], "kind_free_text": "program enumerator: ParserState call trees as data, one driver onto the real methods, one onto the operational model S_op; complete-state comparison through hook H1; built with and without memchr"},
    {"name": "pairs-views-mc", "path": "/verif/harness/c04", "serves_properties": ["C04"], "kind_free_text": "forest x span x tag enumerator through PairsBuilder plus parse trees from the sdoc corpus; all iterator interleavings on every view against a plain tree"},
    {"name": "front-explorer", "path": "/verif/harness/front", "serves_properties": ["C07", "C09", "C14"], "kind_free_text": "grammar front-end explorer: printer/respeller + reader round trip (C07), totality sweep in supervised worker processes (C09), three-way differential of the bootstrapped parser (C14); built twice (default, grammar-extras)"},
+   {"name": "loom-debugger", "path": "/verif/harness/c17", "serves_properties": ["C17"], "kind_free_text": "loom model checker driving the real debugger source (imports rebound at build time); one child process per (script, scenario, capacity, preemption bound)"},
    {"name": "text-enumerator", "path": "/verif/harness/c10", "serves_properties": ["C10"], "kind_free_text": "complete enumeration of short strings x offsets x offset pairs on the real Position/Span/LineIndex/Error code against direct references"},
    {"name": "pratt-enumerator", "path": "/verif/harness/c13", "serves_properties": ["C13"], "kind_free_text": "exhaustive operator tables x token sequences on the real PrattParser/ConstPrattParser/PrecClimber against a shunting-yard reference"},
    {"name": "unicode-enumerator", "path": "/verif/harness/c16", "serves_properties": ["C16"], "kind_free_text": "complete enumeration of scalar values x property names x access paths (function, by_name, VM, derived parser)"},
